@@ -145,7 +145,10 @@ func genPort(t *rapid.T) absPort {
 	p.ContLo = rapid.SampledFrom([]int{80, 443, 3000, 8080, 53, 65530, 1}).Draw(t, "cont")
 	n := rapid.SampledFrom([]int{1, 1, 1, 2, 3, 5}).Draw(t, "range")
 	p.ContHi = p.ContLo + n - 1
-	switch rapid.IntRange(0, 4).Draw(t, "hostkind") {
+	switch rapid.IntRange(0, 5).Draw(t, "hostkind") {
+	case 5:
+		// an address without a host port (`127.0.0.1::80`): every optional part of the grammar on its own
+		p.IP = rapid.SampledFrom([]string{"127.0.0.1", "0.0.0.0", "::1"}).Draw(t, "ip")
 	case 0:
 	case 1, 2:
 		p.HostLo = rapid.SampledFrom([]int{8000, 9000, 49100, 1024}).Draw(t, "host")
